@@ -55,10 +55,16 @@ def gen_case(rng):
         # location and unit of a continuous outcome are arbitrary: a proportion inside (0,1), negative values, large units
         y = df['Y']
         z = (y - y.min()) / (y.max() - y.min() + 1e-12)
-        yscale = rng.choice(['as drawn', 'proportion', 'negative', 'large'])
+        yscale = rng.choice(['as drawn', 'proportion', 'proportion', 'negative', 'large'])
         df = df.copy()
         if yscale == 'proportion':
-            df['Y'] = np.round(0.22 + 0.56 * z, 4)
+            # a proportion with little noise around a strong treatment + covariate signal: counterfactual predictions at the
+            # covariate extremes reach beyond the observed range unless they are bounded by the OBSERVED minimum and maximum
+            w0 = np.asarray(df['W0'], dtype=float)
+            zz = (w0 - w0.min()) / (w0.max() - w0.min() + 1e-12)
+            noise = (z - z.mean()) * 0.02
+            df['Y'] = np.round(np.clip(0.30 + 0.25 * np.asarray(df['A'], dtype=float) + 0.20 * zz + noise, 0.05, 0.95), 4)
+            df.loc[df['Y'].isna() | np.isnan(np.asarray(y, dtype=float)), 'Y'] = np.nan
         elif yscale == 'negative':
             df['Y'] = np.round(-40.0 + 15.0 * z, 3)
         elif yscale == 'large':
